@@ -335,3 +335,19 @@ M2('c12-json-serialize-never-bound', 'C12', 'R8', [
     {'file': JS, 'old': "            self._serialize_sync = self.serialize\n", 'new': "            self._serialize_sync = self._serialize_s\n"}])
 # negative controls (exit 0): serialize_async left to the base class in one arm (it delegates to serialize); the two arms swapped with the test
 # negated; `self.serialize = self._serialize_s if isinstance(result, str) else self._serialize_b`; a class-level `def serialize` dispatching on a flag
+
+# R4 (shared as C05 R8): the render sites may hold the rendition in a local first and store it into the cache once afterwards
+# (negative control, exit 0 for C12 and C05: `rendered = handler.serialize(self._media, self.content_type)` / `rendered = serialize_sync(..)` else
+# `rendered = await handler.serialize_async(..)`, then `self._media_rendered = rendered`, with `data = rendered` or `data = self._media_rendered`,
+# in Response.render_body, asgi.Response.render_body and the inlined copy in asgi.App.__call__).  Still reported: the local never stored,
+# stored on one branch only, or overwritten before the store.
+RS = 'falcon/response.py'
+RB = ("                    self._media_rendered = handler.serialize(\n                        self._media, self.content_type\n"
+      "                    )\n\n                data = self._media_rendered\n")
+M('c12-rendition-held-in-local-never-cached', 'C12', 'R4', RS, RB,
+  "                    rendered = handler.serialize(self._media, self.content_type)\n                    data = rendered\n"
+  "                else:\n                    data = self._media_rendered\n", also=('C05',))
+M('c12-rendition-cached-only-when-truthy', 'C12', 'R4', RS, RB,
+  "                    rendered = handler.serialize(self._media, self.content_type)\n                    if rendered:\n"
+  "                        self._media_rendered = rendered\n                    data = rendered\n"
+  "                else:\n                    data = self._media_rendered\n", also=('C05',))
